@@ -20,6 +20,12 @@ CHECKS = {
  "C08": dict(cat="model_checking", tech="stateless exhaustive schedule enumeration on the real Reader through merge-order hook H1: all k! x z! completion orders of the object-stream blocks and zero-length list per file; differential against the sequential (no-default-features) build",
    text="For every generated file (up to 4/6 object-stream containers with duplicated object numbers, listed or unlisted in the cross-reference data, deferred-length and empty streams) every completion order of the parallel phase is forced through the hook and the canonical digest of the loaded document must be identical for all orders and equal to the sequential build's.",
    note="rests on the argument (DESIGN §3) that the two mutex-protected appends are the only schedule-visible actions; free-running loads on pools of 1..16 threads are supplementary sampling and labelled so"),
+ "C09": dict(cat="exploration", tech="bounded-exhaustive enumeration with reference encoders as generators: all 2^24 predictor byte triples per PNG filter type and bpp, all small frame geometries x filter assignments, all ASCII85 inputs of length <=3 (+ stratified/all 4-byte groups), LZW width-switch and reset boundaries, all 39 filter chains; explicit-state BFS over compress/decompress/set_content operations",
+   text="Reference encoders written from the PNG, LZW/TIFF, Adobe ASCII85 and zlib definitions produce the encoded stream from known plain data; lopdf's decode path must return the original bytes for every case of the stated spaces; a BFS over stream-editing operations checks Length == content length, lossless compress/decompress and that compress never grows a stream in every reachable state.",
+   note="trusts harness/src/refcodec.rs (self-tested on every run against published vectors and flate2's inflater); TIFF predictor 2 and BitsPerComponent < 8 are outside the statement"),
+ "C13": dict(cat="exploration", tech="deviation-bounded exhaustive typed-chaos exploration: every dictionary entry / array element / object of a query-complete skeleton document x 18 value shapes + a reference to every object (all link cycles), pairs in thorough; all 22 read-only query groups per case in isolated worker processes with time, stack and allocation budgets",
+   text="Each mutant document is built in a worker process and every public read-only query is called; the outcome must be a return (value or error) within 2 s, 8 MiB stacks and the allocation allowance; panics, aborts (stack overflow), hangs and oversized allocation requests are violations, pinpointed per query and replayed in a fresh worker.",
+   note="the skeleton fixes which keys exist; keys the query code reads that the skeleton lacks are listed in the evidence; budgets are thresholds chosen by the harness (DESIGN §2.5)"),
  "C15": dict(cat="exploration", tech="bounded-exhaustive enumeration of ToUnicode CMaps: all sequences of <=2/<=3 definitions from a 170-entry menu x deviation-bounded rendering choices (white-space, line ends, sectioning, hex case) x all single codes and ordered code pairs, against reference 'last definition wins' semantics",
    text="Every CMap of the stated space is rendered to real CMap text, parsed by lopdf through get_font_encoding and decoded with Document::decode_text for every mapped code and every ordered pair of codes; the text must equal the reference semantics (last covering definition wins, range offset added to the last UTF-16 unit, arrays indexed, surrogates combined).",
    note="trusts harness/src/refcmap.rs; 'liberal' PostScript spellings that lopdf's grammar rejects are counted separately and only a mis-decode (not a rejection) would be a violation; code lengths 3-4 spot-checked"),
